@@ -325,6 +325,8 @@ mut('queue-eof-by-difference', 'ObjectQueue.cpp', [["        (m_tellg >= m_fileS
     ['C16'], ['Q4|read'], 'a declared size below the get count wraps: the reader is never released')
 mut('queue-shift-eof-to-sentinel', 'ObjectQueue.cpp', [["    if (m_tellp > m_fileSize)\n        m_fileSize = m_tellp;", "    if (m_tellp > m_fileSize)\n        m_fileSize = std::numeric_limits<uint32_t>::max();"]],
     ['C16'], ['Q6|write'], 'a write past the declared end forgets the end: the reader that drained the queue blocks (round-7 seed C16-r7b)')
+mut('step-back-spares-padding', 'File.cpp', [["    if (readTooMuch > 0) {\n        m_uncompressedFile.seekg(-readTooMuch, std::ios_base::cur);", "    if (readTooMuch > static_cast<std::streamoff>(ohb.objectSize % 4)) {\n        m_uncompressedFile.seekg(-readTooMuch, std::ios_base::cur);"]],
+    ['C09'], ['T1|decode-loop'], 'the step back to the declared end spares the padding: with less filler than the padding the next signature is missed (round-7 seed C09-r7a)')
 # ---- round-5 benign twins turned bad: the generalised rules must still see the difference
 mut('size-guard-helper-too-weak', 'File.cpp', [["void File::uncompressedFile2ReadWriteQueue() {\n    /* identify type */", "/** an object cannot have a negative size */\nstatic bool objectSizeCoversHeader(const ObjectHeaderBase & ohb) {\n    return ohb.objectSize >= 0;\n}\n\nvoid File::uncompressedFile2ReadWriteQueue() {\n    /* identify type */"],
                                             ["    if (ohb.objectSize < ohb.calculateHeaderSize()) {", "    if (!objectSizeCoversHeader(ohb)) {"]],
@@ -441,6 +443,8 @@ ben('queue-eof-atom-negated', 'ObjectQueue.cpp', [["        (m_tellg >= m_fileSi
     ['C16', 'C06', 'C07', 'C08'], 'the end-of-stream atom of the reader written as a negated comparison')
 ben('queue-shift-eof-by-max', 'ObjectQueue.cpp', [["    if (m_tellp > m_fileSize)\n        m_fileSize = m_tellp;", "    m_fileSize = std::max(m_fileSize, m_tellp);"]],
     ['C16', 'C06', 'C07'], 'the shifted end written as a maximum')
+ben('step-back-test-ge-one', 'File.cpp', [["    if (readTooMuch > 0) {\n        m_uncompressedFile.seekg(-readTooMuch, std::ios_base::cur);", "    if (readTooMuch >= 1) {\n        m_uncompressedFile.seekg(-readTooMuch, std::ios_base::cur);"]],
+    ['C09', 'C08', 'C10', 'C01'], 'the step-back test written as >= 1')
 ben('factory-without-parens', 'File.cpp', [["        obj = new CanErrorFrame();", "        obj = new CanErrorFrame;"]], ['C17', 'C01'])
 ben('compression-branch-inverted', 'File.cpp', [["    if (compressionLevel == 0) {\n        /* no compression */\n        logContainer.compress(0, 0);\n    } else {\n        /* zlib compression */\n        logContainer.compress(2, compressionLevel);\n    }", "    if (compressionLevel != 0) {\n        /* zlib compression */\n        logContainer.compress(2, compressionLevel);\n    } else {\n        /* no compression */\n        logContainer.compress(0, 0);\n    }"]], PIPE)
 
